@@ -18,7 +18,7 @@ from ..region import Unknown, minieval
 ST = "assembler.assembler._Streamer."
 
 
-@rule("C20.7", ["C20", "C09"], "a symbol leaves _referents and its tree node together (both directions)", 2)
+@rule("C20.7", ["C20", "C09", "C02"], "a symbol leaves _referents and its tree node together (both directions)", 2)
 def c20_7(ctx: Ctx):
     cls = ctx.repo.cls("_modify.cache.ReferenceCache")
     n = 0
